@@ -3,7 +3,7 @@
    are one model (they differ only in [has_reloader]) and the correspondence engine runs the same
    histories through all of them. *)
 From Coq Require Import List String NArith ZArith Bool.
-From AM Require Import Rust.Ast Gen.Private Ref.Load Ref.Sys Proofs.SysGrows Proofs.SysStatic Proofs.SysMap Tie.Graph Tie.Maps.
+From AM Require Import Rust.Ast Gen.Private Ref.Load Ref.Sys Proofs.SysGrows Proofs.SysStatic Proofs.SysMap Tie.Graph Tie.Maps Gen.Anycache Tie.Records.
 Import ListNotations.
 
 (* loads (however Compounds nest, whether they succeed, fail or panic) only ever ADD entries *)
@@ -93,3 +93,10 @@ Example C02_types_are_separate_keys :
                   [OWrite "a" "x" (CBytes [52%N; 50%N]); OLoad TI "a"; OLoad TS "a"; ORemove TI "a"]) in
   cache_get s (TI, "a") = None /\ exists e, cache_get s (TS, "a") = Some e /\ en_val e = VInt 42 "x".
 Proof. vm_compute. split; [reflexivity|eexists; split; reflexivity]. Qed.
+
+(* every typed load goes through the cached look-up first and builds a value only on a miss; the
+   look-up consults the map whatever the type's reload flag and whether or not a reloader exists *)
+Theorem C02_code_lookup_before_load :
+  lookup_recorded Gen.Anycache.Cache_get_cached_entry_inner = true /\
+  load_entry_wf Gen.Anycache.Cache_load_entry = true.
+Proof. exact (conj (proj1 (proj2 (proj2 recording_call_sites))) (proj1 (proj2 (proj2 (proj2 recording_call_sites))))). Qed.
